@@ -8,6 +8,7 @@ package txnh
 import (
 	"context"
 	"os"
+	"sync/atomic"
 	"errors"
 	"fmt"
 	"sort"
@@ -65,10 +66,18 @@ const (
 	DevCrash     = 4 // the client dies here; request not delivered; never returns
 	DevCrashDlv  = 5 // request delivered, then the client dies
 	DevHook      = 6 // Arg: func() run right before a normal delivery (e.g. split)
+	DevDownReq   = 7 // store unreachable from now on for this client and command type: this and all later such requests fail undelivered
+	DevDownResp  = 8 // this request is applied but its answer is lost, and the store is unreachable afterwards (as DevDownReq)
 )
+
+// LostMessage reports whether the deviation loses a request or a response.
+func LostMessage(dev int) bool {
+	return dev == DevDropReq || dev == DevDropResp || dev == DevDownReq || dev == DevDownResp
+}
 
 // RPCRecord is one request/response pair seen at the store seam.
 type RPCRecord struct {
+	ArrSeq int // when the request was issued by the client (parked at the seam)
 	Seq    int
 	Client int
 	Cmd    tikvrpc.CmdType
@@ -85,10 +94,13 @@ type World struct {
 	TSO     *Oracle
 	Clients []*Client
 
+	Seq     atomic.Int64 // one event sequence for RPC records, TSO records and API-level history
+	TSOLog  []TSORecord
+
 	mu      sync.Mutex
-	seq     int
 	RPCLog  []RPCRecord
 	crashed map[int]bool
+	down    map[string]bool // client/cmd -> unreachable
 }
 
 // Client is one logical client process.
@@ -147,7 +159,7 @@ func (o *Oracle) Max() uint64 {
 
 // NewWorld creates n clients over the backend.
 func NewWorld(b Backend, n int, opts ...tikv.Option) *World {
-	w := &World{B: b, TSO: &Oracle{}, crashed: map[int]bool{}}
+	w := &World{B: b, TSO: &Oracle{}, crashed: map[int]bool{}, down: map[string]bool{}}
 	for i := 0; i < n; i++ {
 		w.AddClient(opts...)
 	}
@@ -193,10 +205,23 @@ func (w *World) Crashed(id int) bool {
 
 func (w *World) record(r RPCRecord) {
 	w.mu.Lock()
-	w.seq++
-	r.Seq = w.seq
+	r.Seq = int(w.Seq.Add(1))
 	w.RPCLog = append(w.RPCLog, r)
 	w.mu.Unlock()
+}
+
+// TSORecord is one timestamp handed to a client.
+type TSORecord struct {
+	Seq    int
+	Client int
+	TS     uint64
+}
+
+// TSOs returns a copy of the timestamp log.
+func (w *World) TSOs() []TSORecord {
+	w.mu.Lock()
+	defer w.mu.Unlock()
+	return append([]TSORecord{}, w.TSOLog...)
 }
 
 // Log returns a copy of the RPC log.
@@ -223,6 +248,17 @@ func (s *seamRPC) blockDead() { sched.ParkForever() }
 
 func (s *seamRPC) SendRequest(ctx context.Context, addr string, req *tikvrpc.Request, timeout time.Duration) (*tikvrpc.Response, error) {
 	label := ReqLabel(req)
+	downKey := fmt.Sprintf("%d/%s", s.c.ID, req.Type)
+	s.c.W.mu.Lock()
+	isDown := s.c.W.down[downKey]
+	s.c.W.mu.Unlock()
+	if isDown && sched.Active() {
+		// sticky outage chosen earlier: fails at once, no new decision
+		rc := *req
+		s.c.W.record(RPCRecord{Client: s.c.ID, Cmd: req.Type, Req: &rc, Dev: DevDownReq, Label: label, Err: errInjected})
+		return nil, errInjected
+	}
+	arr := int(s.c.W.Seq.Add(1))
 	reqCopy := *req // the codec recycles the Request wrapper through a pool: keep our own copy
 	if s.c.W.Crashed(s.c.ID) {
 		s.blockDead()
@@ -233,11 +269,16 @@ func (s *seamRPC) SendRequest(ctx context.Context, addr string, req *tikvrpc.Req
 		s.blockDead()
 		return nil, errClosed
 	}
-	rec := RPCRecord{Client: s.c.ID, Cmd: req.Type, Req: &reqCopy, Dev: d.Kind, Label: label}
+	rec := RPCRecord{ArrSeq: arr, Client: s.c.ID, Cmd: req.Type, Req: &reqCopy, Dev: d.Kind, Label: label}
 	switch d.Kind {
 	case sched.Abort:
 		return nil, errClosed
-	case DevDropReq:
+	case DevDropReq, DevDownReq:
+		if d.Kind == DevDownReq {
+			s.c.W.mu.Lock()
+			s.c.W.down[downKey] = true
+			s.c.W.mu.Unlock()
+		}
 		rec.Err = errInjected
 		s.c.W.record(rec)
 		return nil, errInjected
@@ -264,6 +305,11 @@ func (s *seamRPC) SendRequest(ctx context.Context, addr string, req *tikvrpc.Req
 	s.c.W.record(rec)
 	switch d.Kind {
 	case DevDropResp:
+		return nil, errInjected
+	case DevDownResp:
+		s.c.W.mu.Lock()
+		s.c.W.down[downKey] = true
+		s.c.W.mu.Unlock()
 		return nil, errInjected
 	case DevCrashDlv:
 		s.c.W.Crash(s.c.ID)
@@ -306,6 +352,10 @@ func (p *seamPD) GetTS(ctx context.Context) (int64, int64, error) {
 		return 0, 0, errClosed
 	}
 	ph, l := p.c.W.TSO.Next()
+	w := p.c.W
+	w.mu.Lock()
+	w.TSOLog = append(w.TSOLog, TSORecord{Seq: int(w.Seq.Add(1)), Client: p.c.ID, TS: uint64(ph)<<logicalBits | uint64(l)})
+	w.mu.Unlock()
 	return ph, l, nil
 }
 
